@@ -3,7 +3,7 @@ from pyvc.verify import Post, Case, Equiv
 from contracts import common, C12
 
 PROPERTY = 'C11'
-REF_MODULES = ['ref_mut', 'h_path', 'ref_extra', 'ref_core']
+REF_MODULES = ['ref_mut', 'h_path', 'ref_extra', 'ref_core', 'ref_match', 'ref_reduce', 'ref_auto', 'ref_t']
 TS = C12.TS
 
 
@@ -37,6 +37,12 @@ def contracts():
                            2: dict(vars=[('func', 'ref')], ref_vars=[('func', 'ref')])}))
     from contracts import extra
     cs += common.shared(extra, ['mutation.Assign.__init__', 'mutation.assign', 'mutation._assign_autodiscover'])
+    # the assigned value is arg_val(target, val, scope) evaluated with a fresh per-call valuator (shared with C08); how many wildcard
+    # layers a destination has is TType.__stars__ (shared with C14 through contracts/extra.py)
+    from contracts import C08, X_ctor
+    cs += common.shared(C08, ['core.arg_val', 'core._ArgValuator.mode'])
+    cs += common.shared(X_ctor, ['core._ArgValuator.__init__'])
+    cs += common.shared(extra, ['core.TType.__stars__'])
     return cs
 
 
